@@ -315,6 +315,10 @@ let () =
           | "ctor" :: r -> bump counts "ctor"; do_ctor r line
           | "appm" :: r -> bump counts "appm"; do_appm r line
           | "absm" :: r -> bump counts "absm"; do_absm r line
+          | "meta-orders" :: [_; input; n; agree; _] ->
+              bump counts "meta-orders";
+              if agree <> "1" then fail "oracle:C06:orders-disagree-large-index" "normalising orders disagree on a term with very large free indices" line;
+              note_nontrivial ("meta-orders" ^ input ^ n)
           | "meta-ud" :: r -> bump counts "meta-ud"; do_meta "meta-ud" r line
           | "meta-shift" :: r -> bump counts "meta-shift"; do_meta "meta-shift" r line
           | "CRASH" :: r -> fail "oracle:crash" "the implementation crashed (stack overflow / abort) while running this suite" (String.concat " " r)
